@@ -390,7 +390,14 @@ def finishBlock (st : St) : St × Option String :=
           let keep := if name = "destroy" then none else some { m with w := { m.w with trace := [] } }
           let st' := st'.setInst k keep
           match m.w.err with
-          | some e => (st', some s!"model-error {e}")
+          | some e =>
+            -- the model ran into a contract violation: usually because it wanted another callback than the one the
+            -- implementation ran (and so read a decision meant for something else) — report where the two
+            -- callback / record sequences part, which says WHAT differs
+            match firstDiff got st.expected 0 with
+            | some (i, g, x) =>
+              (st', some s!"event#{i} expected(model)={g.replace " " "_"} got(impl)={x.replace " " "_"} [then model-error {e.replace " " "_"}]")
+            | none => (st', some s!"model-error {e}")
           | none =>
             match firstDiff got st.expected 0 with
             | some (i, g, e) => (st', some s!"event#{i} expected(model)={g.replace " " "_"} got(impl)={e.replace " " "_"}")
